@@ -30,7 +30,7 @@ pub static DEF: PropDef = PropDef {
   stack_mb: 256,
   case_cpu_s: 600.0,
   crash_is_event: false,
-  rule: "One case per feature set (quick: the full set, the 8 all-but-one sets, the 8 single-feature sets, the empty set and 14 seeded random sets; thorough: all 256). (a) cargo check of the library with exactly that set: each compiler error is reported with code, file, named identifiers and the +/- literals of the set. (b) If the set builds (quick: the 8 all-but-one sets; thorough: every set), the driver crate c19drv is built against it and run on a generated workload (schemas of the shared/core/syntax profiles with and without comments, templates for every additional and freezer control, .feature with feature lists, CSV); per item the driver's record must equal the record computed in-process with all features: parser acceptance; Display text (exactly; modulo comments and white space when the set lacks ast-comments and the schema has comments); Debug AST after removing span fields and empty comment fields; JSON / CBOR / CSV verdict class and error count where the set provides the validator. Items using a control operator the set does not provide are skipped (additional-controls, freezer incl. .pcre verdicts). Non-trivial = feature set for which the build result was observed; behaviour comparisons are counted per operation.",
+  rule: "One case per feature set (quick: the full set, the 8 all-but-one sets, the 8 single-feature sets, the empty set and 14 seeded random sets; thorough: all 256). (a) cargo check of the library with exactly that set: each compiler error is reported with code, file, named identifiers and the +/- literals of the set. (b) If the set builds (quick: the 8 all-but-one sets; thorough: those plus every fourth set, rotated by the seed), the driver crate c19drv is built against it and run on a generated workload (schemas of the shared/core/syntax profiles with and without comments, templates for every additional and freezer control, .feature with feature lists, CSV); per item the driver's record must equal the record computed in-process with all features: parser acceptance; Display text (exactly; modulo comments and white space when the set lacks ast-comments and the schema has comments); Debug AST after removing span fields and empty comment fields; JSON / CBOR / CSV verdict class and error count where the set provides the validator. Items using a control operator the set does not provide are skipped (additional-controls, freezer incl. .pcre verdicts). Non-trivial = feature set for which the build result was observed; behaviour comparisons are counted per operation.",
   assumptions: &[
     "feature sets always include std (the property's 'with std')",
     "the reference is this harness linked against /repo with default features; the driver for the full set is compared against it as a self-check (a difference there is a harness fault, reported as inconclusive)",
@@ -153,6 +153,8 @@ struct Item {
   v: Value,
   needs_ac: bool,
   needs_fz: bool,
+  /// uses the .json control, which validates the embedded text with the JSON validator (feature json)
+  needs_json: bool,
   pcre: bool,
   comments: bool,
   /// index of the comment-free rendering of the same schema
@@ -162,6 +164,10 @@ struct Item {
 
 const CORE_CTL: &[&str] = &["size", "bits", "regexp", "cbor", "cborseq", "within", "and", "lt", "le", "gt", "ge", "eq", "ne", "default", "pcre"];
 const FZ_CTL: &[&str] = &["iregexp", "bitfield"];
+
+fn uses_json_ctl(tags: &BTreeSet<String>) -> bool {
+  tags.contains("ctl.json")
+}
 
 fn classify_ctl(tags: &BTreeSet<String>) -> (bool, bool, bool) {
   let (mut ac, mut fz, mut pcre) = (false, false, false);
@@ -227,11 +233,11 @@ fn workload(rng: &mut Rng, n: usize) -> Vec<Item> {
   let mut out = vec![];
   for (s, docs, feats, ac, fz, pcre) in TEMPLATES {
     let cb: Vec<String> = docs.iter().filter_map(|d| serde_json::from_str::<Value>(d).ok()).map(|v| from_json(&v)).map(|v| hexs(&dv::encode(&v, &dv::CANON, &mut Rng::new(0)))).collect();
-    out.push(Item { v: json!({"schema": s, "json": docs, "cbor": cb, "csv": [], "features": feats}), needs_ac: *ac, needs_fz: *fz, pcre: *pcre, comments: false, twin: None, kind: "template" });
+    out.push(Item { v: json!({"schema": s, "json": docs, "cbor": cb, "csv": [], "features": feats}), needs_ac: *ac, needs_fz: *fz, needs_json: s.contains(".json"), pcre: *pcre, comments: false, twin: None, kind: "template" });
   }
   for (s, docs) in CSVS {
     let c: Vec<Value> = docs.iter().map(|(t, h)| json!({"text": t, "header": h})).collect();
-    out.push(Item { v: json!({"schema": s, "json": [], "cbor": [], "csv": c, "features": []}), needs_ac: false, needs_fz: false, pcre: false, comments: false, twin: None, kind: "csv" });
+    out.push(Item { v: json!({"schema": s, "json": [], "cbor": [], "csv": c, "features": []}), needs_ac: false, needs_fz: false, needs_json: false, pcre: false, comments: false, twin: None, kind: "csv" });
   }
   while out.len() < n {
     let k = rng.below(10);
@@ -241,14 +247,14 @@ fn workload(rng: &mut Rng, n: usize) -> Vec<Item> {
       let docs = gen_docs(&g, rng, true, 6);
       let js: Vec<String> = docs.iter().map(|(v, _)| v.to_json()).collect();
       let cb: Vec<String> = docs.iter().map(|(v, _)| hexs(&dv::encode(v, &dv::CANON, &mut Rng::new(0)))).collect();
-      out.push(Item { v: json!({"schema": gs::print_plain(&g), "json": js, "cbor": cb, "csv": [], "features": []}), needs_ac: ac, needs_fz: fz, pcre, comments: false, twin: None, kind: "shared" });
+      out.push(Item { v: json!({"schema": gs::print_plain(&g), "json": js, "cbor": cb, "csv": [], "features": []}), needs_ac: ac, needs_fz: fz, needs_json: false, pcre, comments: false, twin: None, kind: "shared" });
     } else if k < 6 {
       let g = gen_schema(rng, Profile::core(true));
       let (ac, fz, pcre) = classify_ctl(&gs::tags(&g));
       let docs = gen_docs(&g, rng, false, 6);
       let mut r2 = Rng::new(rng.next_u64());
       let cb: Vec<String> = docs.iter().map(|(v, _)| { let o = dv::random_opts(&mut r2); hexs(&dv::encode(v, &o, &mut r2)) }).collect();
-      out.push(Item { v: json!({"schema": gs::print_plain(&g), "json": [], "cbor": cb, "csv": [], "features": []}), needs_ac: ac, needs_fz: fz, pcre, comments: false, twin: None, kind: "core-cbor" });
+      out.push(Item { v: json!({"schema": gs::print_plain(&g), "json": [], "cbor": cb, "csv": [], "features": []}), needs_ac: ac, needs_fz: fz, needs_json: false, pcre, comments: false, twin: None, kind: "core-cbor" });
     } else {
       let mut g = gs::Gen::new(rng, Profile::syntax());
       let g = g.schema();
@@ -258,12 +264,12 @@ fn workload(rng: &mut Rng, n: usize) -> Vec<Item> {
       let text = if comments { synx::render(&g, &Mode::Comments(seed)) } else if k == 7 { synx::render(&g, &Mode::Spell(seed)) } else { synx::render(&g, &Mode::Plain) };
       let has_c = comments && text_has_comment(&text);
       let twin = if has_c {
-        out.push(Item { v: json!({"schema": synx::render(&g, &Mode::Plain), "json": [], "cbor": [], "csv": [], "features": []}), needs_ac: ac, needs_fz: fz, pcre, comments: false, twin: None, kind: "syntax" });
+        out.push(Item { v: json!({"schema": synx::render(&g, &Mode::Plain), "json": [], "cbor": [], "csv": [], "features": []}), needs_ac: ac, needs_fz: fz, needs_json: uses_json_ctl(&gs::tags(&g)), pcre, comments: false, twin: None, kind: "syntax" });
         Some(out.len() - 1)
       } else {
         None
       };
-      out.push(Item { v: json!({"schema": text, "json": [], "cbor": [], "csv": [], "features": []}), needs_ac: ac, needs_fz: fz, pcre, comments: has_c, twin, kind: if comments { "syntax-comments" } else { "syntax" } });
+      out.push(Item { v: json!({"schema": text, "json": [], "cbor": [], "csv": [], "features": []}), needs_ac: ac, needs_fz: fz, needs_json: uses_json_ctl(&gs::tags(&g)), pcre, comments: has_c, twin, kind: if comments { "syntax-comments" } else { "syntax" } });
     }
   }
   out
@@ -394,14 +400,14 @@ fn run(ctx: &mut Ctx, idx: u64) {
   }
   // behaviour half
   let structured = mask == 255 || (0..8).any(|i| mask == 255 & !(1 << i));
-  thread_local! { static EXTRA: std::cell::Cell<u32> = std::cell::Cell::new(0); }
-  if ctx.tier == Tier::Quick && !structured {
-    let n = EXTRA.with(|e| e.get());
-    if n >= 0 {
-      ctx.count("driver_skipped_quick_budget");
-      return;
-    }
-    EXTRA.with(|e| e.set(n + 1));
+  // behaviour half: quick = the all-but-one sets; thorough = those plus every fourth set (rotated by the seed)
+  let selected = match ctx.tier {
+    Tier::Quick => structured,
+    Tier::Thorough => structured || (mask as u64 + ctx.seed) % 4 == 0,
+  };
+  if !selected {
+    ctx.count("driver_not_run_for_this_set");
+    return;
   }
   let tdir = format!("{}/target/c19/d{}", VERIF, slot);
   // reference = the same driver built with all features (what "the operation with every feature" does)
@@ -424,7 +430,7 @@ fn run(ctx: &mut Ctx, idx: u64) {
     return;
   }
   let mut rng = Rng::new(ctx.seed ^ (mask as u64).wrapping_mul(0x9E37_79B9_7F4A_7C15));
-  let n = if ctx.tier == Tier::Quick { 160 } else { 500 };
+  let n = if ctx.tier == Tier::Quick { 160 } else { 300 };
   let items = workload(&mut rng, n);
   if ctx.tier == Tier::Thorough {
     prune(&tdir);
@@ -436,7 +442,7 @@ fn run(ctx: &mut Ctx, idx: u64) {
   ctx.sample("driver-run", 12, || json!({"features": feature_arg(mask), "items": items.len(), "reference_records": want.iter().filter(|x| x.is_some()).count(), "set_records": got.iter().filter(|x| x.is_some()).count()}));
   for (k, it) in items.iter().enumerate() {
     ctx.count(&format!("items:{}", it.kind));
-    if (it.needs_ac && !has(mask, "additional-controls")) || (it.needs_fz && !has(mask, "freezer")) {
+    if (it.needs_ac && !has(mask, "additional-controls")) || (it.needs_fz && !has(mask, "freezer")) || (it.needs_json && !has(mask, "json")) {
       ctx.count("items_skipped_functionality_absent");
       continue;
     }
@@ -444,6 +450,10 @@ fn run(ctx: &mut Ctx, idx: u64) {
       ctx.report(&format!("differs-{}:{},item.{}", op, lits, it.kind), json!({"features": feature_arg(mask), "schema": it.v["schema"], "item": it.v, "operation": op, "with_all_features": a, "with_this_set": b}));
     };
     let (w, g) = match (&want[k], &got[k]) {
+      (Some(w), Some(g)) if w["stack_overflow"] == true || g["stack_overflow"] == true => {
+        ctx.count("items_stack_overflow_in_a_driver_left_to_C05");
+        continue;
+      }
       (Some(w), Some(g)) if w["timed_out"] == true || g["timed_out"] == true => {
         // a wall-clock event is never a verdict
         ctx.count("items_timed_out_in_a_driver_skipped");
@@ -557,7 +567,9 @@ fn run_driver(bin: &str, items: &[Item], mask: u32, tag: &str) -> Vec<Option<Val
   let mut restarts = 0;
   while res.len() < items.len() && restarts < 60 {
     let _ = std::fs::remove_file(&opath);
-    let st = Command::new("timeout").arg("600").arg(bin).arg(&wpath).arg(&opath).arg(res.len().to_string()).stdin(Stdio::null()).stdout(Stdio::null()).stderr(Stdio::null()).status();
+    let o = Command::new("timeout").arg("600").arg(bin).arg(&wpath).arg(&opath).arg(res.len().to_string()).stdin(Stdio::null()).stdout(Stdio::null()).stderr(Stdio::piped()).output();
+    let overflowed = o.as_ref().map(|o| String::from_utf8_lossy(&o.stderr).contains("overflowed its stack")).unwrap_or(false);
+    let st = o.map(|o| o.status);
     let recs: Vec<Value> = std::fs::read_to_string(&opath).unwrap_or_default().lines().filter_map(|l| serde_json::from_str(l).ok()).collect();
     for r in recs {
       res.push(Some(r));
@@ -567,6 +579,9 @@ fn run_driver(bin: &str, items: &[Item], mask: u32, tag: &str) -> Vec<Option<Val
       let code = st.ok().and_then(|s| s.code());
       if code == Some(3) || code == Some(124) {
         res.push(Some(json!({"timed_out": true})));
+      } else if overflowed {
+        // stack exhaustion depends on frame sizes, which differ between builds; C05 owns it
+        res.push(Some(json!({"stack_overflow": true})));
       } else {
         res.push(None);
       }
